@@ -171,4 +171,63 @@ theorem padArgv_getD (argv : List (Option Nat)) (argc len k : Nat) (hk : k < 4) 
     (padArgv argv argc len).getD k none = if k < argc then argv.getD k none else some len := by
   simp [padArgv, argvLen_eq, List.getD_eq_getElem?_getD, hk]
 
+/-! ### the fourth token takes the rest of the line -/
+
+theorem tokStep_rest (orig : List Byte) (i : Nat) (t : Tok)
+    (hfut : ∀ j, i ≤ j → t.mem.getD j 0 = orig.getD j 0) (h3 : t.argc < 4) (hl : t.argv.length = 4) :
+    (∀ j, i + 1 ≤ j → (tokStep t i).1.mem.getD j 0 = orig.getD j 0) ∧ (tokStep t i).1.argv.length = 4 ∧
+    ((tokStep t i).2 = false → (tokStep t i).1.argc < 4) ∧
+    ((tokStep t i).2 = true → (tokStep t i).1.argc = 4 ∧ (tokStep t i).1.argv.getD 3 none = some i ∧
+        ∀ j, i ≤ j → (tokStep t i).1.mem.getD j 0 = orig.getD j 0) := by
+  have hw : ∀ j, i + 1 ≤ j → (t.mem.set i 0).getD j 0 = orig.getD j 0 := by
+    intro j hj
+    rw [getD_set, if_neg (by omega)]
+    exact hfut j (by omega)
+  have hk : ∀ j, i + 1 ≤ j → t.mem.getD j 0 = orig.getD j 0 := fun j hj => hfut j (by omega)
+  unfold tokStep
+  by_cases c1 : isspace (t.mem.getD i 0) = true ∧ t.quote = 0
+  · rw [if_pos c1]; exact ⟨hw, hl, fun _ => h3, fun h => by cases h⟩
+  · rw [if_neg c1]
+    by_cases c2 : t.mem.getD i 0 = t.quote
+    · rw [if_pos c2]; exact ⟨hw, hl, fun _ => h3, fun h => by cases h⟩
+    · rw [if_neg c2]
+      by_cases c3 : t.mem.getD (i - 1) 0 = 0
+      · rw [if_pos c3]
+        by_cases c4 : t.mem.getD i 0 = 39 ∨ t.mem.getD i 0 = 34
+        · rw [if_pos c4]; exact ⟨hw, hl, fun _ => h3, fun h => by cases h⟩
+        · rw [if_neg c4]
+          refine ⟨hk, by simp [hl], ?_, ?_⟩
+          · intro hb
+            have hb' : decide (t.argc + 1 ≥ argvLen) = false := hb
+            rw [argvLen_eq] at hb'
+            have : ¬ (t.argc + 1 ≥ 4) := by simpa using hb'
+            show t.argc + 1 < 4
+            omega
+          · intro hb
+            have hb' : decide (t.argc + 1 ≥ argvLen) = true := hb
+            rw [argvLen_eq] at hb'
+            have h4 : t.argc + 1 ≥ 4 := by simpa using hb'
+            have he : t.argc = 3 := by omega
+            refine ⟨by show t.argc + 1 = 4; omega, ?_, hfut⟩
+            show (t.argv.set t.argc (some i)).getD 3 none = some i
+            rw [he]
+            simp [List.getD_eq_getElem?_getD, hl]
+      · rw [if_neg c3]; exact ⟨hk, hl, fun _ => h3, fun h => by cases h⟩
+
+theorem tokLoop_rest (orig : List Byte) : ∀ (n i : Nat) (t : Tok),
+    (∀ j, i ≤ j → t.mem.getD j 0 = orig.getD j 0) → t.argc < 4 → t.argv.length = 4 →
+    (tokLoop n i t).argc = 4 →
+    ∃ o, i ≤ o ∧ (tokLoop n i t).argv.getD 3 none = some o ∧ ∀ j, o ≤ j → (tokLoop n i t).mem.getD j 0 = orig.getD j 0
+  | 0, _, t, _, h3, _, h4 => by simp only [tokLoop] at h4; omega
+  | n + 1, i, t, hfut, h3, hl, h4 => by
+    obtain ⟨s1, s2, s3, s4⟩ := tokStep_rest orig i t hfut h3 hl
+    rw [tokLoop] at h4 ⊢
+    by_cases hbr : (tokStep t i).2 = true
+    · rw [if_pos hbr]
+      obtain ⟨_, b2, b3⟩ := s4 hbr
+      exact ⟨i, Nat.le_refl _, b2, b3⟩
+    · rw [if_neg hbr] at h4 ⊢
+      obtain ⟨o, o1, o2, o3⟩ := tokLoop_rest orig n (i + 1) _ s1 (s3 (by simpa using hbr)) s2 h4
+      exact ⟨o, by omega, o2, o3⟩
+
 end Librfn.Lemmas.ConsoleTok
